@@ -38,16 +38,16 @@ ConstraintQuick ==
     /\ (al /\ bl) => (Len(a) + Len(b) <= 3 /\ Over(a, QAlpha) /\ Over(b, QAlpha))
 
 ------------------------------------------------------------------------------------------
-(* thorough: 4-symbol alphabet with a high-bit byte and a digit, texts <= 5, indices -8..8 *)
+(* thorough: 4-symbol alphabet with a high-bit byte and a digit, texts <= 5, indices -6..6 *)
 TAlpha == {97, 66, 200, 55}
 UThorough == [
     maxlen |-> 5,
     chars  |-> TAlpha \cup {32},       charsr |-> {32, 200},
-    idx    |-> -7 .. 7,                idxr   |-> {-1, 0, 1, 2},   idxo |-> -4 .. 4,
-    cnt    |-> -2 .. 6,                cntr   |-> {0, 1, 2},       cnto |-> 0 .. 4,
+    idx    |-> -6 .. 6,                idxr   |-> {-1, 0, 1, 2},   idxo |-> -4 .. 4,
+    cnt    |-> -1 .. 6,                cntr   |-> {0, 1, 2},       cnto |-> 0 .. 4,
     n      |-> 0 .. 6,                 nr     |-> {0, 1, 2},       no   |-> 0 .. 4,
     ptrs   |-> {<<>>, <<97>>, <<200, 66>>, <<55, 55>>, <<97, 66, 200>>},        ptrsr  |-> {<<>>, <<66>>, <<200, 55>>},
-    cmps   |-> {<<>>, <<97>>, <<65>>, <<98>>, <<97, 98>>, <<200>>, <<55, 66>>, <<97, 66, 200, 55, 55>>},   cmpsr |-> {<<97>>, <<200>>},
+    cmps   |-> {<<>>, <<65>>, <<97, 98>>, <<200>>, <<55, 66>>, <<97, 66, 200, 55, 55>>},   cmpsr |-> {<<97>>, <<200>>},
     spls   |-> {<<>>, <<97, 200>>},    splsr  |-> {<<55>>},
     lits   |-> {<<>>, <<66, 200>>},
     nums   |-> {0, 7, -3, 12, 77777},  numsr  |-> {7},
@@ -60,7 +60,8 @@ UThorough == [
 TNumTexts   == {NumText(k) : k \in UThorough.nums}
 ConstraintThorough ==
     /\ (Over(a, TAlpha) \/ a \in TNumTexts) /\ (Over(b, TAlpha) \/ b \in TNumTexts)
-    /\ (al /\ bl) => Len(a) + Len(b) <= 4
+    /\ (al /\ bl) => (Len(a) + Len(b) <= 3 /\ Over(a, TAlpha) /\ Over(b, TAlpha))
+    /\ (~al /\ bl) => Len(b) <= 3
 
 ------------------------------------------------------------------------------------------
 (* thorough, second scope: blanks and longer texts: alphabet {a, space, TAB}, texts <= 6, fewer argument values *)
@@ -84,4 +85,5 @@ UThorough2 == [
 ConstraintThorough2 ==
     /\ (Over(a, T2Alpha) \/ a = <<48>>) /\ (Over(b, T2Alpha) \/ b = <<48>>)
     /\ (al /\ bl) => Len(a) + Len(b) <= 3
+    /\ (~al /\ bl) => Len(b) <= 3
 ================================================================================
